@@ -12,6 +12,7 @@ CONSTANTS FieldKinds <- AllPlain
           Ascending = FALSE
           MsgIds <- M_three
           Sels <- Sel_none
+          StreamPieces <- P_none
           MaxGlobal = 1
           MaxScopes = 0
           MaxMsgAttrs = 0
